@@ -1065,3 +1065,29 @@ Definition mismatches (cs : list case) : list N := mismatches_from 0 cs.
 
 (** diagnosis helper: per case, where it first differs *)
 Definition diffs (cs : list case) : list (option (N * N * N)) := map case_diff cs.
+
+(* ------------------------------------------------------------------ *)
+(** * The CIDR table before the repair (names end in [_pre_fix])
+
+    Table.AddRoute keyed the map by [route.Network.String()] (the printed,
+    unmasked network: [strkey]) and stored the network as delivered;
+    lookupUnlocked compared [Mask.Size()] of the stored networks. *)
+
+(** Mask.Size() of the network as delivered: net.CIDRMask(ones, bits) is nil
+    (size 0) when ones exceeds the family's width *)
+Definition raw_ones (r : rawnet) : N :=
+  if rn_ones r <=? fbits (rn_fam r) then rn_ones r else 0.
+
+(** net.IPNet.Contains of the network as delivered (masks both sides) *)
+Definition raw_contains (r : rawnet) (a : addr) : bool :=
+  match strkey r with Some p => contains p a | None => false end.
+
+Definition ctable_pre_fix := table (option prefix) rawnet.
+
+Definition cidr_add_pre_fix (local now : N) (t : ctable_pre_fix) (raw : rawnet)
+           (nexthop origin metric seq : N) (path : list N) : ctable_pre_fix * bool :=
+  if path_has local path then (t, false)
+  else tadd okey_eqb same_origin (strkey raw) (mkE origin nexthop metric seq path now raw) t.
+
+Definition cidr_lookup_pre_fix (t : ctable_pre_fix) (a : addr) : option (entry rawnet) :=
+  lpm_scan raw_contains raw_ones t a None.
